@@ -10,6 +10,7 @@ package main
 
 import (
 	"context"
+	"errors"
 	"fmt"
 	"strings"
 	"time"
@@ -25,10 +26,28 @@ type Case struct {
 	Kind   string `json:"kind"` // read-fault | write-fault
 	Resp   string `json:"resp,omitempty"`
 	Offset int    `json:"offset"`
-	Fail   string `json:"fail"` // eof | reset | timeout   (write: error | short)
+	Fail   string `json:"fail"`            // eof | reset | timeout   (write: error | short)
 	Chunk  int    `json:"chunk,omitempty"` // 0: bytes arrive in one read; else read size
 	Late   bool   `json:"late,omitempty"`  // the consumer calls NextPackage only after the reader has processed everything that arrived
 	Prev   string `json:"prev,omitempty"`  // history: this response was received completely and drained on the channel before
+	// Poll: the consumer polls with wait=false (sleeping one virtual second when nothing is ready); explored under
+	// all schedules with at most 1 (thorough 2) deviations - which ready case a select takes is a choice
+	Poll    bool  `json:"poll,omitempty"`
+	Choices []int `json:"choices,omitempty"`
+}
+
+// while a case is explored under several schedules its violations are handed to the explorer
+var exploring bool
+var pendSig, pendDet string
+
+func report(sig, det string, c Case) {
+	if exploring {
+		if pendSig == "" {
+			pendSig, pendDet = sig, det
+		}
+		return
+	}
+	h.Violate(sig, det, c)
 }
 
 var h *hlib.H
@@ -76,6 +95,40 @@ type base struct {
 var bases = map[string]base{}
 
 func runRead(c Case) {
+	if !c.Poll {
+		runReadCfg(c, vrt.Config{Choices: c.Choices, Lenient: len(c.Choices) > 0})
+		return
+	}
+	if len(c.Choices) > 0 { // replay of one schedule
+		runReadCfg(c, vrt.Config{Choices: c.Choices})
+		return
+	}
+	bound := 1
+	if h.Thorough {
+		bound = 2
+	}
+	st := vrt.ExploreFn(vrt.ExploreCfg{Bound: bound, Deadline: h.Deadline(),
+		Check: func(x *vrt.Exec) (string, string) {
+			s, d := pendSig, pendDet
+			pendSig, pendDet = "", ""
+			return s, d
+		},
+		OnViolation: func(sig, det string, choices []int, x *vrt.Exec) {
+			cc := c
+			cc.Choices = append([]int{}, choices...)
+			h.Violate(sig, fmt.Sprintf("%s [schedule %v]", det, choices), cc)
+		}},
+		func(cfg vrt.Config) *vrt.Exec {
+			exploring = true
+			defer func() { exploring = false }()
+			return runReadCfg(c, cfg)
+		})
+	if st.Diverged != "" {
+		h.Fatal("diverged: %s", st.Diverged)
+	}
+}
+
+func runReadCfg(c Case, cfg vrt.Config) *vrt.Exec {
 	r := corpus[c.Resp]
 	b, ok := bases[c.Resp]
 	if !ok {
@@ -121,11 +174,26 @@ func runRead(c Case) {
 	}
 	var failAt, errAt, err2At time.Duration
 	gotErr, gotErr2 := "", "(package)"
-	o, x := rx.Deliver(vrt.Config{}, sc, func(conn *tds.Conn, ch *tds.Channel, pipe *vrt.Pipe, o *rx.Obs) {
+	polls := 0
+	o, x := rx.Deliver(cfg, sc, func(conn *tds.Conn, ch *tds.Channel, pipe *vrt.Pipe, o *rx.Obs) {
 		ctx, cancel := vrt.WithTimeout(context.Background(), 10*time.Hour)
 		defer cancel()
+		polls = 0
+		next := func() (tds.Package, error) {
+			if !c.Poll {
+				return ch.NextPackage(ctx, true)
+			}
+			for {
+				p, err := ch.NextPackage(ctx, false)
+				if err == nil || !errors.Is(err, tds.ErrNoPackageReady) || polls > 3*readTimeout {
+					return p, err
+				}
+				polls++
+				vrt.Sleep(time.Second)
+			}
+		}
 		for i := 0; i < len(prevAll); i++ { // the earlier response, completely
-			p, err := ch.NextPackage(ctx, true)
+			p, err := next()
 			if err != nil || rx.LibDesc(p) != prevAll[i] {
 				o.Failure = fmt.Sprintf("earlier-response-disturbed: package %d of the complete earlier response %s: %v %v", i, c.Prev, p, err)
 				vrt.Finish()
@@ -136,13 +204,13 @@ func runRead(c Case) {
 			if c.Late {
 				vrt.Settle()
 			}
-			p, err := ch.NextPackage(ctx, true)
+			p, err := next()
 			if err != nil {
 				gotErr = err.Error()
 				errAt = vrt.Now()
 				// a second receive after the failure must not block either
 				if c.Offset < len(stream) {
-					_, err2 := ch.NextPackage(ctx, true)
+					_, err2 := next()
 					err2At = vrt.Now()
 					if err2 != nil {
 						gotErr2 = err2.Error()
@@ -165,6 +233,9 @@ func runRead(c Case) {
 	h.Trace()
 	if x.Diverged != "" {
 		h.Fatal("diverged: %s", x.Diverged)
+	}
+	if c.Poll && polls > 3*readTimeout {
+		gotErr = "" // polled for three read timeouts without a package or an error
 	}
 	// position class
 	full := 0
@@ -197,14 +268,17 @@ func runRead(c Case) {
 	if c.Prev != "" {
 		cls += "|after-earlier-response"
 	}
+	if c.Poll {
+		cls += "|polling-consumer"
+	}
 	ctxt := fmt.Sprintf("%s: %d of %d stream bytes (%d of %d packets complete) then %s", c.Resp, c.Offset, len(stream), full, len(pk), c.Fail)
 	if c.Prev != "" {
 		ctxt = "after the complete response " + c.Prev + ", " + ctxt
 	}
 	if o.Failure != "" {
 		kind := strings.SplitN(o.Failure, ":", 2)[0]
-		h.Violate("C14|"+kind+"|"+cls, fmt.Sprintf("%s: %s; received %v", ctxt, o.Failure, o.Descs()), c)
-		return
+		report("C14|"+kind+"|"+cls, fmt.Sprintf("%s: %s; received %v", ctxt, o.Failure, o.Descs()), c)
+		return x
 	}
 	got := o.Descs()
 	// prefix of the baseline
@@ -214,46 +288,51 @@ func runRead(c Case) {
 			if rx.IsFinalDone(g) {
 				what = "spurious-final-done"
 			}
-			h.Violate("C14|"+what+"|"+cls, fmt.Sprintf("%s: received %q at position %d, the complete response delivers %v", ctxt, g, i, b.all), c)
-			return
+			report("C14|"+what+"|"+cls, fmt.Sprintf("%s: received %q at position %d, the complete response delivers %v", ctxt, g, i, b.all), c)
+			return x
 		}
 	}
 	complete := c.Offset == len(stream)
 	if len(got) > 0 && rx.IsFinalDone(got[len(got)-1]) && !complete {
-		h.Violate("C14|spurious-final-done|"+cls, fmt.Sprintf("%s: a final DONE was delivered although the response was not received completely: %v", ctxt, got), c)
-		return
+		report("C14|spurious-final-done|"+cls, fmt.Sprintf("%s: a final DONE was delivered although the response was not received completely: %v", ctxt, got), c)
+		return x
 	}
 	if complete {
 		if len(got) != len(b.all) {
-			h.Violate("C14|complete-response-not-delivered|"+cls, fmt.Sprintf("%s: received %v (%s), want %v", ctxt, got, gotErr, b.all), c)
+			report("C14|complete-response-not-delivered|"+cls, fmt.Sprintf("%s: received %v (%s), want %v", ctxt, got, gotErr, b.all), c)
 		} else {
 			h.Outcome("complete")
 		}
-		return
+		return x
 	}
 	// at least every package lying in completely received packets
 	must := b.after[full]
 	if len(got) < len(must) {
-		h.Violate("C14|prefix-too-short|"+cls, fmt.Sprintf("%s: received only %d packages %v before the error (%s); the %d completely received packets contain %v", ctxt, len(got), got, gotErr, full, must), c)
-		return
+		report("C14|prefix-too-short|"+cls, fmt.Sprintf("%s: received only %d packages %v before the error (%s); the %d completely received packets contain %v", ctxt, len(got), got, gotErr, full, must), c)
+		return x
 	}
 	if gotErr == "" {
-		h.Violate("C14|no-error|"+cls, fmt.Sprintf("%s: received %v and no error", ctxt, got), c)
-		return
+		report("C14|no-error|"+cls, fmt.Sprintf("%s: received %v and no error", ctxt, got), c)
+		return x
 	}
 	if strings.Contains(gotErr, "passed context is closed") {
-		h.Violate("C14|blocked-until-own-context-expired|"+cls, fmt.Sprintf("%s: the consumer got no error from the library; its own 10h context expired (%s); received %v", ctxt, gotErr, got), c)
-		return
+		report("C14|blocked-until-own-context-expired|"+cls, fmt.Sprintf("%s: the consumer got no error from the library; its own 10h context expired (%s); received %v", ctxt, gotErr, got), c)
+		return x
 	}
-	if errAt > time.Duration(readTimeout)*time.Second {
-		h.Violate("C14|error-later-than-read-timeout|"+cls, fmt.Sprintf("%s: error %q only after %v of virtual time (read timeout %ds)", ctxt, gotErr, errAt, readTimeout), c)
-		return
+	slack := time.Duration(0)
+	if c.Poll {
+		slack = time.Second // the polling consumer looks once per virtual second
 	}
-	if strings.Contains(gotErr2, "passed context is closed") || err2At-errAt > time.Duration(readTimeout)*time.Second {
-		h.Violate("C14|second-receive-blocks|"+cls, fmt.Sprintf("%s: the first receive reported %q at %v; the next receive returned %q only at %v (read timeout %ds)", ctxt, gotErr, errAt, gotErr2, err2At, readTimeout), c)
-		return
+	if errAt > time.Duration(readTimeout)*time.Second+slack {
+		report("C14|error-later-than-read-timeout|"+cls, fmt.Sprintf("%s: error %q only after %v of virtual time (read timeout %ds)", ctxt, gotErr, errAt, readTimeout), c)
+		return x
+	}
+	if strings.Contains(gotErr2, "passed context is closed") || err2At-errAt > time.Duration(readTimeout)*time.Second+slack {
+		report("C14|second-receive-blocks|"+cls, fmt.Sprintf("%s: the first receive reported %q at %v; the next receive returned %q only at %v (read timeout %ds)", ctxt, gotErr, errAt, gotErr2, err2At, readTimeout), c)
+		return x
 	}
 	h.Outcome(fmt.Sprintf("prefix+error-%s@%s", pos, errAt))
+	return x
 }
 
 var totalWrites = -1
@@ -358,6 +437,10 @@ func main() {
 				if k%3 == 0 {
 					run(Case{Kind: "read-fault", Resp: r.Name, Offset: k, Fail: f, Chunk: 3})
 					h.Section("read-faults-3-byte-reads", 1)
+				}
+				if f != "timeout" && (h.Thorough || k%2 == 0) {
+					run(Case{Kind: "read-fault", Resp: r.Name, Offset: k, Fail: f, Poll: true})
+					h.Section("read-faults-polling-consumer", 1)
 				}
 				// history: an earlier response on the channel (ending in a real final DONE / in a
 				// DONE the library had to complete / multi-packet rows)
